@@ -21,7 +21,7 @@ type c17 struct{}
 func (c17) ID() string    { return "C17" }
 func (c17) Level() string { return "exploration" }
 func (c17) Rule() string {
-	return "full product of {explicit name: unset, ok, invalid x2} x {COMPOSE_PROJECT_NAME: absent | via WithEnv, OS, .env; valid or invalid} x {name: in none/first/last/both of two files or a second --- document} x {name text: literal, ${VAR} set, ${VAR} unset, mixed case, normalises to empty} x {directory base name: plain, upper+dot, leading symbol, unicode, normalises to empty}, loaded through cli.NewProjectOptions/LoadProject; every string of length <= 3 (thorough: 4) over 8 character classes (lower, upper, digit, _, -, ., @, non-ASCII) as directory base name, as literal file name and as COMPOSE_PROJECT_NAME (explicit environment, .env); and a variable that each of {WithEnv, OS environment, .env #1, .env #2} leaves undefined, defines, or defines as the empty string (all 80 state vectors) under all 8 documented option orders, observed through ${V-unset}, plus .env #2 values referencing that variable. Reference = the precedence chains of Appendix A.4. distinct = distinct (configuration class, outcome) pairs"
+	return "full product of {explicit name: unset, ok, invalid x2} x {COMPOSE_PROJECT_NAME: absent | via WithEnv, OS, .env; valid or invalid} x {name: in none/first/last/both of two files or a second --- document} x {name text: literal, ${VAR} set, ${VAR} unset, mixed case, normalises to empty} x {directory base name: plain, upper+dot, leading symbol, unicode, normalises to empty}, loaded through cli.NewProjectOptions/LoadProject with default options and with normalisation off / consistency and path resolution off / environment resolution off; every string of length <= 3 (thorough: 4) over 8 character classes (lower, upper, digit, _, -, ., @, non-ASCII) as directory base name, as literal file name and as COMPOSE_PROJECT_NAME (explicit environment, .env); and a variable that each of {WithEnv, OS environment, .env #1, .env #2} leaves undefined, defines, or defines as the empty string (all 80 state vectors) under all 8 documented option orders, observed through ${V-unset}, plus .env #2 values referencing that variable. Reference = the precedence chains of Appendix A.4. distinct = distinct (configuration class, outcome) pairs"
 }
 func (c17) Assumptions() []string {
 	return []string{
@@ -54,6 +54,18 @@ type c17nameCase struct {
 
 func (n c17nameCase) id() string {
 	return fmt.Sprintf("name/x%q/e%d%v/p%d/t%d/d%s", n.explicit, n.envSource, n.envValid, n.placement, n.text, n.dir)
+}
+
+// c17extraOpts: further options of the case being run (set by the driver around the call).
+var c17extraOpts []cli.ProjectOptionsFn
+
+var c17optionSets = []struct {
+	name string
+	opts []cli.ProjectOptionsFn
+}{
+	{"no-normalization", []cli.ProjectOptionsFn{cli.WithNormalization(false)}},
+	{"no-consistency-no-paths", []cli.ProjectOptionsFn{cli.WithConsistency(false), cli.WithResolvedPaths(false)}},
+	{"no-env-resolution", []cli.ProjectOptionsFn{cli.WithoutEnvironmentResolution}},
 }
 
 func c17load(dir string, files []string, opts ...cli.ProjectOptionsFn) (p *types.Project, err error) {
@@ -90,9 +102,22 @@ func (c17) Run(c *core.Ctx) {
 						if placement == 0 && text != 0 {
 							continue
 						}
-						for _, dir := range dirs {
+						for di, dir := range dirs {
 							nc := c17nameCase{ex, envSource, envValid, placement, text, dir}
-							c.Do(nc.id(), func() core.Outcome { return c17nameCheck(base, nc, texts, textVal) })
+							c.Do(nc.id(), func() core.Outcome { c17extraOpts = nil; return c17nameCheck(base, nc, texts, textVal) })
+							// the name rules do not depend on the other load options: the same point with normalisation off,
+							// with consistency checks and path resolution off, without environment resolution
+							if c.Quick() && di > 1 {
+								continue
+							}
+							for _, os := range c17optionSets {
+								os := os
+								c.Do(nc.id()+"/opt-"+os.name, func() core.Outcome {
+									c17extraOpts = os.opts
+									defer func() { c17extraOpts = nil }()
+									return c17nameCheck(base, nc, texts, textVal)
+								})
+							}
 						}
 					}
 				}
@@ -192,6 +217,7 @@ func c17nameCheck(base string, nc c17nameCase, texts, textVal []string) core.Out
 	if nc.explicit != "" {
 		opts = append(opts, cli.WithName(nc.explicit))
 	}
+	opts = append(opts, c17extraOpts...)
 	p, err := c17load(wd, files, opts...)
 	// reference
 	wantErr := false
